@@ -5,4 +5,5 @@ CONSTANTS
   L3i = 2
   LG = 2
   TripleCoords = {}
+  InfThin = 5
 CHECK_DEADLOCK FALSE
